@@ -139,6 +139,17 @@ def observables(e, c, m):
     return [np.array(np.asarray(m.weights), dtype=float)]
 
 
+# number of draws the caller makes from NumPy's global generator BETWEEN constructing an estimator and calling
+# its fit (0 for the references, the position in the history otherwise): an estimator must not rely on the
+# global stream staying where its constructor left it
+GAP = [0]
+
+
+def _gap():
+    if GAP[0]:
+        np.random.rand(GAP[0])
+
+
 def fit(em, probs, e, c, variant, d, o, p, r):
     """Builds the estimator afresh with random_state=r and fits it; returns the public parameters."""
     import dask
@@ -164,6 +175,7 @@ def fit(em, probs, e, c, variant, d, o, p, r):
                     m.means = pr["init"].copy()
                     m.variances = np.array([[1.0, 0.6], [0.8, 1.1]])
                     m.weights = np.array([0.45, 0.55])
+            _gap()
             m.fit(X)
             return observables(e, c, m)
         perm = probs.order(len(pr["yl"]), o)
@@ -187,6 +199,7 @@ def fit(em, probs, e, c, variant, d, o, p, r):
             m = em.ISVMachine(r_U=fa["r_U"], em_iterations=fa["em_iterations"], random_state=r, **kw)
         else:
             m = em.JFAMachine(r_U=fa["r_U"], r_V=fa["r_V"], em_iterations=fa["em_iterations"], random_state=r, **kw)
+        _gap()
         if variant == "stats":
             m.fit(m.ubm.transform(X), y)
         elif variant == "bag":
